@@ -19,7 +19,7 @@ RULE = ("Histories over 19 operations {rewrite same size, rewrite other size, to
         "both), '*'} after an initial plain GET: exhaustive to length 3 (thorough 4), random length 7 beyond; targets Files:/f.txt, Pages:/p (-> p.html), "
         "Pages:/sub/ (-> index.html); both interfaces; process time zone rotated over UTC, America/Los_Angeles, Asia/Kolkata, Pacific/Kiritimati, Etc/GMT+12. Non-trivial = history with >=1 modification between a response and the reuse of its validators; "
         "exhaustive histories are distinct by construction.")
-RULE += ' Also: (ASGI) the file replaced while another request for it is in flight, then a request with the old validators; a sweep over hundreds of (size, modification second) states of one file (no two states share an entity tag that revalidates); files whose names carry digests / dates / versions; 2-5 conditional requests with assorted validators in flight together on one app object; the validators in either order with other request headers before, between and after them; replacement by a file of another size whose mtime was carried over (only ctime moves), If-None-Match lists with empty members and with a comma inside a tag, conditional requests sent as GET or HEAD, apps with every cacheability / max_age setting.'
+RULE += ' Also: (ASGI) the file replaced while another request for it is in flight, then a request with the old validators; a sweep over hundreds of (size, modification second) states of one file (no two states share an entity tag that revalidates); files whose names carry digests / dates / versions; 2-5 conditional requests with assorted validators in flight together on one app object; the validators in either order with other request headers before, between and after them; replacement by a file of another size whose mtime was carried over (only ctime moves), If-None-Match lists with empty members and with a comma inside a tag, conditional requests sent as GET or HEAD, apps with every cacheability / max_age setting. The file replaced between two ASGI requests answered by one task with nothing awaited in between, and while an earlier WSGI download is still held unfinished.'
 ASSUMPTIONS = [
     "a request that carries only If-Modified-Since is not judged when the change time of the file is not later than the date the client holds although it lies in another second (file clock stepped backwards, or a carried-over mtime ahead of ctime): a date comparison cannot see such a change; ETag-carrying requests are judged",
     "file timestamps come from a virtual clock (os.stat is wrapped for sandbox paths only); content is really written to disk",
@@ -298,6 +298,12 @@ def run(ctx):
                         ctx.case(("changed-while-in-flight", t[2], busy))
         else:
             ctx.mon("changed-while-in-flight", 0)
+        if ctx.shard == 1 % ctx.nshards:
+            for t in targets:
+                changed_between_back_to_back_requests(ctx, vfs, t)
+                ctx.case(("back-to-back", t[0], t[2]))
+        else:
+            ctx.mon("changed-between-back-to-back-requests", 0)
         if ctx.shard == 0:
             for t in (targets[0], targets[len(targets) // 2]):
                 tag_sweep(ctx, vfs, t, range(0, 140) if ctx.quick else range(0, 1200), (0, 1, 81, 3600, 86400, 172800.5, 864000))
@@ -418,6 +424,97 @@ def changed_while_in_flight(ctx, vfs, t, busy):
         ctx.violation("200-with-old-or-wrong-content", case, f"{st2} {body2[:30]!r}")
 
 
+def changed_between_back_to_back_requests(ctx, vfs, t):
+    """iface asgi: two requests answered by ONE task of one loop with nothing awaited in between (a test client, an in-process gateway),
+    the file replaced between them; iface wsgi: the first download is still held unfinished by its client while the file is replaced
+    and requested again. The later request - old validators or none - gets the new file with validators of its own."""
+    import asyncio
+    iface, app, url_path, file_path = t
+    old, new = b"old content", b"new and longer content"
+    with open(file_path, "wb") as f:
+        f.write(old)
+    vfs.state[file_path] = {"m": 1_800_000_000.0, "c": 1_800_000_000.0}
+
+    def replace():
+        with open(file_path, "wb") as f:
+            f.write(new)
+        vfs.state[file_path] = {"m": 1_800_000_100.0, "c": 1_800_000_100.0}
+    out = {}
+    if iface == "asgi":
+        async def call(headers):
+            sent = []
+
+            async def receive():
+                await asyncio.Event().wait()
+
+            async def send(m):
+                sent.append(m)
+            await app(drivers.to_scope(drivers.Req(path=url_path.encode(), headers=headers, server=("t", 80))), receive, send)
+            hd = {k.decode("latin-1").lower(): v.decode("latin-1") for k, v in sent[0].get("headers", [])}
+            return sent[0]["status"], hd, b"".join(m.get("body", b"") for m in sent[1:])
+
+        async def main():
+            out["first"] = await call([])
+            h = out["first"][1]
+            out["unchanged"] = await call([("If-None-Match", h.get("etag", ""))])  # (a 304: answered without the task ever being suspended)
+            replace()
+            out["revalidate"] = await call([("If-None-Match", h.get("etag", "")), ("If-Modified-Since", h.get("last-modified", ""))])
+            out["plain"] = await call([])
+            out["own"] = await call([("If-None-Match", out["plain"][1].get("etag", ""))])
+        lp = asyncio.new_event_loop()
+        try:
+            lp.run_until_complete(asyncio.wait_for(main(), 30))
+        finally:
+            lp.close()
+    else:
+        def call(headers, hold=False):
+            box = {}
+
+            def start_response(status, hl, exc_info=None):
+                box["status"], box["headers"] = int(status.split()[0]), {k.lower(): v for k, v in hl}
+            it = app(drivers.to_environ(drivers.Req(path=url_path.encode(), headers=headers, server=("t", 80))), start_response)
+            if hold:
+                i = iter(it)
+                first = next(i, b"")
+                return box["status"], box["headers"], first, (it, i)
+            try:
+                body = b"".join(it)
+            finally:
+                if hasattr(it, "close"):
+                    it.close()
+            return box["status"], box["headers"], body
+        st, h, first, held = call([], hold=True)
+        out["first"] = (st, h, first)
+        replace()
+        out["revalidate"] = call([("If-None-Match", h.get("etag", "")), ("If-Modified-Since", h.get("last-modified", ""))])
+        out["plain"] = call([])
+        out["own"] = call([("If-None-Match", out["plain"][1].get("etag", ""))])
+        try:  # the first client finishes (or gives up) only now
+            for _ in held[1]:
+                pass
+        except Exception:
+            pass
+        finally:
+            if hasattr(held[0], "close"):
+                held[0].close()
+    ctx.mon("changed-between-back-to-back-requests")
+    case = {"iface": iface, "target": url_path, "changed_between_back_to_back_requests": True}
+    if out["first"][0] != 200:
+        return
+    for who in ("revalidate", "plain"):
+        st, hd, body = out[who]
+        if st == 304:
+            ctx.violation(f"stale-304|request-arrived-after-the-change|{'same-task-nothing-awaited' if iface == 'asgi' else 'earlier-download-still-held'}", case, f"{who}: 304 although the file had been replaced")
+            return
+        if st != 200 or body != new or hd.get("content-length") != str(len(new)):
+            ctx.violation("200-with-old-or-wrong-content", case, f"{who}: {st} length {hd.get('content-length')} body {body[:30]!r}")
+            return
+    if out["plain"][1].get("etag") == out["first"][1].get("etag"):
+        ctx.violation("new-content-served-with-the-validators-of-the-old", case, f"etag {out['plain'][1].get('etag')!r} for both")
+    elif out["own"][0] != 304:
+        ctx.violation("etag-of-a-200-does-not-revalidate", case, f"{out['own'][0]}")
+
+
 def in_flight(ctx, vfs, targets, seed, pre=None):
     import random
 
@@ -450,6 +547,17 @@ def in_flight(ctx, vfs, targets, seed, pre=None):
 
 
 def replay(ctx, case):
+    if case.get("changed_between_back_to_back_requests"):
+        vfs = VFS()
+        try:
+            for t in setup(ctx):
+                if t[0] == case["iface"] and t[2] == case["target"]:
+                    changed_between_back_to_back_requests(ctx, vfs, t)
+                    break
+            ctx.case(1)
+        finally:
+            vfs.close()
+        return
     if case.get("changed_while_in_flight"):
         vfs = VFS()
         try:
